@@ -569,14 +569,148 @@ class SimLock:
         return self._owner is not None
 
 
+class SimCondition:
+    """threading.Condition over a simulated lock: wait() is a scheduler block, notify() a yield point"""
+
+    def __init__(self, sched, lock=None):
+        self._s = sched
+        if lock is None:
+            lock = SimLock(sched, True)
+        if not isinstance(lock, SimLock):
+            raise HarnessError("Condition over a lock the simulator does not own: %r" % (lock,))
+        self._lock = lock
+        self.acquire = lock.acquire
+        self.release = lock.release
+        self._waiters = []
+
+    def __enter__(self):
+        self._lock.acquire()
+        return self
+
+    def __exit__(self, *a):
+        self._lock.release()
+
+    def wait(self, timeout=None):
+        s = self._s
+        me = s.me()
+        if s.killing or me is None:
+            return True
+        lk = self._lock
+        if lk._owner is not me:
+            raise RuntimeError("cannot wait on un-acquired lock")
+        saved = lk._count
+        lk._count = 0
+        lk._owner = None
+        ticket = [False]
+        self._waiters.append(ticket)
+        ok = s.block(lambda: ticket[0], timeout, "cv.wait")
+        if not ok and ticket in self._waiters:
+            self._waiters.remove(ticket)
+        if lk._owner is not None:
+            s.block(lambda: lk._owner is None, None, "cv.reacq")
+        lk._owner = me
+        lk._count = saved
+        return ok or ticket[0]
+
+    def wait_for(self, predicate, timeout=None):
+        end = None if timeout is None else self._s.now + timeout
+        r = predicate()
+        while not r:
+            left = None
+            if end is not None:
+                left = end - self._s.now
+                if left <= 0:
+                    break
+            self.wait(left)
+            r = predicate()
+        return r
+
+    def notify(self, n=1):
+        me = self._s.me()
+        if not self._s.killing and me is not None and self._lock._owner is not me:
+            raise RuntimeError("cannot notify on un-acquired lock")
+        for ticket in self._waiters[:n]:
+            ticket[0] = True
+        del self._waiters[:n]
+        self._s.yield_point("cv.notify")
+
+    def notify_all(self):
+        self.notify(len(self._waiters))
+
+    notifyAll = notify_all
+
+
+class SimSemaphore:
+    def __init__(self, sched, value=1, bounded=False):
+        if value < 0:
+            raise ValueError("semaphore initial value must be >= 0")
+        self._s = sched
+        self._value = value
+        self._bound = value if bounded else None
+
+    def acquire(self, blocking=True, timeout=None):
+        s = self._s
+        if s.killing or s.me() is None:
+            return True
+        s.yield_point("sem.acq")
+        if self._value <= 0:
+            if not blocking:
+                return False
+            if not s.block(lambda: self._value > 0, timeout, "sem.acq"):
+                return False
+        self._value -= 1
+        return True
+
+    __enter__ = acquire
+
+    def release(self, n=1):
+        if self._bound is not None and self._value + n > self._bound:
+            raise ValueError("Semaphore released too many times")
+        self._value += n
+        if not self._s.killing:
+            self._s.yield_point("sem.rel")
+
+    def __exit__(self, *a):
+        self.release()
+
+
+def _make_timer(sched):
+    class SimTimer(threading.Thread):
+        """threading.Timer on the virtual clock (Thread.start is patched: it becomes a simulated thread)"""
+
+        def __init__(self, interval, function, args=None, kwargs=None):
+            threading.Thread.__init__(self)
+            self.interval = interval
+            self.function = function
+            self.args = args if args is not None else []
+            self.kwargs = kwargs if kwargs is not None else {}
+            self.finished = SimEvent(sched)
+
+        def cancel(self):
+            self.finished.set()
+
+        def run(self):
+            self.finished.wait(self.interval)
+            if not self.finished.is_set():
+                self.function(*self.args, **self.kwargs)
+            self.finished.set()
+    return SimTimer
+
+
 class ThreadingFacade:
-    """stands in for the ``threading`` module attribute of Pyro5 modules"""
+    """stands in for the ``threading`` module attribute of Pyro5 modules: every blocking primitive is a simulated one
+    (a real one would park a thread that holds the baton: nobody could ever run again)"""
+
+    _UNSUPPORTED = ("Barrier",)
 
     def __init__(self, sched):
         self._s = sched
-        for n in ("Thread", "current_thread", "get_ident", "local", "main_thread", "enumerate",
-                  "active_count", "Timer", "Semaphore", "Condition", "settrace", "setprofile"):
-            setattr(self, n, getattr(threading, n))
+        self.Timer = _make_timer(sched)
+
+    def __getattr__(self, n):
+        if n in self._UNSUPPORTED:
+            raise HarnessError("threading.%s has no simulated counterpart" % n)
+        return getattr(threading, n)
 
     def Event(self):
         return SimEvent(self._s)
@@ -586,6 +720,15 @@ class ThreadingFacade:
 
     def RLock(self):
         return SimLock(self._s, True)
+
+    def Condition(self, lock=None):
+        return SimCondition(self._s, lock)
+
+    def Semaphore(self, value=1):
+        return SimSemaphore(self._s, value)
+
+    def BoundedSemaphore(self, value=1):
+        return SimSemaphore(self._s, value, True)
 
 
 class TimeFacade:
